@@ -1,8 +1,9 @@
 SPECIFICATION Spec
 CONSTANTS
   Fns <- F3
-  MaxDepth = 2
+  MaxDepth = 1
   Dedup = TRUE
   NameFn <- GoodName
 INVARIANTS Once Complete Injective NoDivergeIfFinite
+PROPERTY Terminates
 CHECK_DEADLOCK FALSE
